@@ -38,3 +38,28 @@ def run_one(ctx, bt, spec, checker, spy=False):
                     "capital": spec["capital"], "n_trades": len(log)})
     checker(ctx, bt, spec, b, log)
     return b
+
+
+def run_steps_protocol(ctx, bt, n, footprint_fields=None, corr_name="run-steps", make_spec=None, build=None):
+    """whole generated backtests executed on the real code with every outermost engine operation (those issued by the stock
+    algos and by Backtest.run itself) recorded as a step and re-executed by the Lean model from the real pre-state"""
+    from . import run_steps as RS
+    from .engine_run import model_compare
+    batch = []
+    for _ in range(n):
+        spec = make_spec(ctx.rng) if make_spec else R.gen_run_spec(ctx.rng)
+        steps = []
+        try:
+            if build:
+                b = build(bt, spec)
+            else:
+                b, data, add = R.build_backtest(bt, spec)
+            with RS.record_steps(bt, b.strategy, steps):
+                b.run()
+        except Exception as e:  # noqa
+            ctx.count("run-steps:program-raised:" + E.classify_exc(e))
+        ctx.count("run-steps:programs")
+        for j, st in enumerate(steps):
+            batch.append(({"run_spec": spec}, j, st))
+    nc, nd = model_compare(ctx, bt, batch, footprint_fields, None, corr_name)
+    ctx.protocols.append((corr_name, nc, nd))
